@@ -148,4 +148,19 @@ LitDenotes(B, L, v) ==
          [] v.t \in {"TinyInt", "SmallInt", "Int", "BigInt", "TinyUnsigned", "SmallUnsigned", "Unsigned", "BigUnsigned"} ->
               ConcatAll([i \in DOMAIN L |-> L[i].t]) = v.v /\ \A i \in DOMAIN L : L[i].k \in {"num", "op"}
          [] OTHER -> TRUE
+
+\* The "sugar" methods of SelectStatement and the call each stands for (spec/stmt_methods.json).  A case may ask for
+\* a call to be made through such a method (field "m"); the harness then calls exactly that method.
+StmtMethod == JsonDeserialize("stmt_methods.json")
+CallMethodOk(kind, c) ==
+  "m" \notin DOMAIN c \/
+  (/\ c.m \in DOMAIN StmtMethod /\ StmtMethod[c.m].op = c.op
+   /\ \E i \in DOMAIN StmtMethod[c.m].on : StmtMethod[c.m].on[i] = kind
+   /\ ("jt" \in DOMAIN StmtMethod[c.m] => c.jt = StmtMethod[c.m].jt /\ "a" \notin DOMAIN c)
+   /\ ("type" \in DOMAIN StmtMethod[c.m] => c.type = StmtMethod[c.m].type /\ "tables" \notin DOMAIN c /\ "behavior" \notin DOMAIN c)
+   /\ ("needs" \in DOMAIN StmtMethod[c.m] =>
+         CASE StmtMethod[c.m].needs = "col" -> c.e.k = "col"
+           [] StmtMethod[c.m].needs = "one_col" -> "cols" \in DOMAIN c.r /\ Len(c.r.cols) = 1
+           [] StmtMethod[c.m].needs = "all" -> "all" \in DOMAIN c.r))
+CallsOk(j) == j.kind \notin {"select", "update", "delete", "insert"} \/ \A i \in DOMAIN j.calls : CallMethodOk(j.kind, j.calls[i])
 =============================================================================
